@@ -8,7 +8,8 @@ MODULE = "Momtrop.Props.C07Sector"
 THEOREMS = ["Momtrop.C07.rescaling_common", "Momtrop.C07.scaling_def", "Momtrop.C07.removal_step", "Momtrop.C07.last_step", "Momtrop.C07.rescaling_normalises", "Momtrop.C07.permLoop_trace", "Momtrop.C07.chain_nodup", "Momtrop.C07.replay_get", "Momtrop.C07.sector_formula", "Momtrop.C07.sector_monotone", "Momtrop.C07.permLoop_trop"]
 RULE = ("accepted connected graphs with 1..3 (quick) / 1..4 (thorough) loops, mixed massive/massless edges, D=1..6 odd and even, "
         "uniform/corner points; pre-rescaling parameters vs the sector formula (mpmath), logged U_tr/V_tr vs the brute-force maximal "
-        "monomials of U and F/U (exact), normalisation at the rescaled parameters. Non-trivial: L>=1, >=3 edges, removal order not the identity")
+        "monomials of U and F/U (exact), normalisation at the rescaled parameters. Non-trivial: L>=1, >=3 edges, removal order not the identity"
+        " Families: tiny xi (1e-17..5e-324), two-point polygons (30 points each), self-loops, integer degrees of divergence, massless vacuum graphs with supplied masses; the sector formula uses the exact omega of the oracle, tolerance scaled by sum |ln xi|/omega; generic-scalar guard.")
 ASSUMPTIONS = ["sector formula compared at 1e-12 E relative; normalisation at 1e-11; maximal monomials at 16 ulp"]
 
 
